@@ -114,6 +114,22 @@ PROPS: dict[str, dict[str, Any]] = {
         "components": [sched(LB, crash=0.0), system(["plain"], 400, 8000)],
         "assumptions": ["whole-system composition (worker + channels) is argued in DESIGN §5 C01 from the worker theorems and FIFO delivery"],
     },
+    "C02": {
+        "components": [system(["plain", "crash", "each", "budget", "requeue", "stop", "lifecycle", "mismatch"], 640, 12000),
+                       sched(["load", "loadscope"], quick=120, thorough=2000, crash=0.1), worker(quick=300, thorough=6000)],
+        "assumptions": ["a stand-off is a simulated state in which the controller waits for an event and no worker step, command delivery or receiver step is enabled",
+                        "real-time fairness (a test that never returns), the 2 s queue timeout and OS scheduling are outside the model: the simulation's random scheduler gives every enabled step a positive probability and a run must end within a step budget",
+                        "whole-execution absence of stand-offs is validated by the simulation, not proved; the theorems cover the two mechanisms (two queued tests or shutdown; tests_finished => everybody shut down)"],
+    },
+    "C08": {
+        "components": [sched(["each"], quick=500, thorough=8000, crash=0.12), system(["each"], 400, 8000)],
+        "assumptions": ["heterogeneous environments are simulated by distinct --tx specs with their own collections"],
+    },
+    "C09": {
+        "components": [sched(["load", "worksteal", "loadscope", "loadfile", "loadgroup"], quick=200, thorough=3000, crash=0.08), system(["mismatch"], 400, 8000)],
+        "assumptions": ["difflib's text of the difference is not modelled; the monitors check that the report names both workers and is a failure",
+                        "with --dist each every environment has its own collection; only a replacement is compared (with the worker it replaces)"],
+    },
     "C03": {
         "components": [sched(LB, crash=0.12), system(["crash"], 400, 8000)],
         "assumptions": ["'head of the book = the test in hand' relies on the book/queue correspondence (C05, C07) and FIFO channels"],
